@@ -18,6 +18,16 @@ class C02(Prop):
         "reads, reopen with the catalogue's split-off moved forward, a few with truncations; each followed by "
         "last-index, full read and file hash before and after reopen. Oracle = list of acknowledged entries. "
         "non-trivial = contains a reopen"))]
+    models.append(ModelRun("logstore", lambda rng, tier: log_gen.gen_store(rng, tier, "append"),
+                           lambda c: any(o.startswith(("a ", "b ")) for o in c.ops) and "reopen" in c.ops,
+                           spec_needs_impl=True, jobs=8,
+                           search=lambda rng, b: log_gen.gen_store(rng, "thorough", "append")[:b], rule=(
+        "the whole log through the real FileStore (RaftIndexManager + RaftLogManager + log actors on real files, a fresh "
+        "actor system per session): single appends and batches of 1..100 entries that roll over into new log files "
+        "(small index geometry through the guarded hook: a file is full after ~44-60 records), rejected non-contiguous "
+        "appends, delete_logs_from at cut points in every file and on file boundaries, compaction pointers, reopen; "
+        "then last-index and a full read, again after a reopen. Model = specification: the list of acknowledged "
+        "entries (RNacos/Model/LogStore.lean). non-trivial = at least one append and one reopen")))
     trusted_base = [
         "hand model RNacos/Model/LogFile.lean of LogInnerManager (file bytes incl. index area, cursors, the data "
         "handle's position); the 1024-byte chunked readers are represented by the whole-stream parse, which C20's "
